@@ -26,6 +26,12 @@ func (r *yieldRewriter) rewriteRanges(block *ast.BlockStmt) {
 	astutil.Apply(block, nil, func(c *astutil.Cursor) bool {
 		switch n := c.Node().(type) {
 		case *ast.RangeStmt:
+			if _, labelled := c.Parent().(*ast.LabeledStmt); labelled {
+				// labels are only legal in nested non-yield func lit, leave the range stmt native
+				noYield := !r.rewriter.containsYield(r.pkg, n.Body)
+				r.assert(noYield, n, "labelled range with yield not supported")
+				return true
+			}
 			do := func(ctor string, arg ast.Expr) {
 				factory := r.SeqSelect(ctor)
 				iter := X.Call(factory, arg)
